@@ -77,7 +77,7 @@ func c09Oracle(e *Env, s *vsched.Sched) []Finding {
 func init() {
 	mc.Register(&mc.Check{
 		Prop:        "C09",
-		Rule:        "programs: every multiset of 2 operations (quick: preemption bound 1, bound 2 for 12 core pairs; thorough: bound 2, bound 3 for the core pairs without group resolution) and every multiset of 3 operations that contains a Close / cancel / CreateScope (thorough, bound 1) from a 15-operation alphabet (resolutions of every lifetime, by key and group, on the shared scope / another scope / the provider; scope and child-scope creation; Close of the scope, its parent, the provider; context cancellation), one operation per goroutine on one shared provider, with and without a scoped initializer; plus a scoped initializer that calls back into the container (creates a child scope on its injected Scope) against Close(provider) / CreateScope / a resolution (bound 2/3); all schedules within the preemption bound; a vector-clock happens-before race detector over every field access of godi's own structs runs on every execution. Auxiliary (sampling, not the deciding step): 14 free-running programs on the UNREWRITTEN godi under the Go race detector, 150 (1500) iterations each; a report with both accesses inside godi's packages is a violation. An outcome is the canonical observation string of one execution.",
+		Rule:        "programs: every multiset of 2 operations (quick: preemption bound 1, bound 2 for 10 core pairs; thorough: bound 2, bound 3 for the core pairs without group resolution) and every multiset of 3 operations that contains a Close / cancel / CreateScope (thorough, bound 1) from a 15-operation alphabet (resolutions of every lifetime, by key and group, on the shared scope / another scope / the provider; scope and child-scope creation; Close of the scope, its parent, the provider; context cancellation), one operation per goroutine on one shared provider, with and without a scoped initializer; plus a scoped initializer that calls back into the container (creates a child scope on its injected Scope) against Close(provider) / CreateScope / a resolution (bound 2/3); all schedules within the preemption bound; a vector-clock happens-before race detector over every field access of godi's own structs runs on every execution. Auxiliary (sampling, not the deciding step): 14 free-running programs on the UNREWRITTEN godi under the Go race detector, 150 (1500) iterations each; a report with both accesses inside godi's packages is a violation. An outcome is the canonical observation string of one execution.",
 		Assume:      []string{"sync.RWMutex is modelled with Go's documented writer preference (a pending Lock excludes new readers), so recursive read-locking under a pending writer deadlocks as in reality", "sequentially consistent interleavings at synchronisation granularity; the race detector covers fields of godi's struct types only", "user code (constructors, Close methods) yields on entry"},
 		MinOutcomes: 10,
 		Jobs: func(tier string) []mc.Job {
